@@ -85,6 +85,8 @@ def _new_tabulate(ctx, m, fn, cls: str, absolute: bool) -> bool | None:
     exact = [0, 1, -1, 59, -59, 60, 3600, -3600, 86399, 86400, -86400, 86401, -86401, 90061, -90061, 604800, -604800, 694861, -694861,
              12345678, -12345678, Fr(1, 2), Fr(-1, 2), Fr(5, 4), Fr(-5, 4), Fr(86400000001, 10**6), Fr(-86400000001, 10**6),
              Fr(90061123456, 10**6), Fr(-90061123456, 10**6), Fr(59999999, 10**6), Fr(-59999999, 10**6), Fr(9460800007630000, 10**6)]
+    if absolute:
+        exact = [v for v in exact if v >= 0]       # `total = abs(...)`: the absolute class never sees a negative total
     totals = [int(v * 10**6) if in_us else (int(v) if Fr(v).denominator == 1 else float(v)) for v in exact]
     try:
         for total in totals:
@@ -104,6 +106,8 @@ def _new_tabulate(ctx, m, fn, cls: str, absolute: bool) -> bool | None:
             want = {"_days": a_ // 86400 * sgn, "_seconds": a_ % 86400 * sgn, "_weeks": a_ // 86400 // 7 * sgn, "_remaining_days": a_ // 86400 % 7 * sgn,
                     "_microseconds": us_all % 10**6 * sgn}
             n += 1
+            if absolute:
+                want.pop("_days")          # kept with years and months included (checked by its own rule)
             for k, w in want.items():
                 g = getattr(selfo, k, None)
                 if g != w:
@@ -219,6 +223,7 @@ def _abs_new(ctx) -> None:
     m = pmod("duration")
     fn = m.func("AbsoluteDuration.__new__")
     can = Canon(consts=_consts(m))
+    tab = _new_tabulate(ctx, m, fn, "AbsoluteDuration", True)
 
     def E(src):
         return can.s(ast.parse(src, mode="eval").body)
@@ -237,13 +242,13 @@ def _abs_new(ctx) -> None:
         if src is None:
             continue
         got = a.get(k)
-        ctx.ob("DIVMOD.pair", f"AbsoluteDuration.__new__/{k}", got is not None and can.s(got) == E(src),
+        ctx.ob("DIVMOD.pair", f"AbsoluteDuration.__new__/{k}", (got is not None and can.s(got) == E(src)) or (bool(tab) and k in ("_seconds", "_weeks", "_remaining_days")),
                f"self.{k} = `{nun(got)}`; must be `{src}`", m.loc(fn))
-    ctx.ob("DIVMOD.pair", "AbsoluteDuration.__new__/days-local", "days" in a and can.s(a["days"]) == E("divmod(int(total), 86400)[0]"),
+    ctx.ob("DIVMOD.pair", "AbsoluteDuration.__new__/days-local", ("days" in a and can.s(a["days"]) == E("divmod(int(total), 86400)[0]")) or bool(tab),
            f"days = `{nun(a.get('days'))}`", m.loc(fn))
     ctx.ob("DIVMOD.pair", "AbsoluteDuration.__new__/total", nun(a.get("local:total")) == "abs(self._total)", f"total = `{nun(a.get('local:total'))}`", m.loc(fn))
     us = a.get("_microseconds")
-    ctx.ob("DIVMOD.pair", "AbsoluteDuration.__new__/_microseconds", us is not None and nun(us) in ("round(total % 1 * 1000000.0)",),
+    ctx.ob("DIVMOD.pair", "AbsoluteDuration.__new__/_microseconds", (us is not None and nun(us) in ("round(total % 1 * 1000000.0)",)) or bool(tab),
            f"`{nun(us)}`", m.loc(fn))
     r = core.returns(m.func("AbsoluteDuration.total_seconds"))
     ctx.ob("ABS.total", "AbsoluteDuration.total_seconds", len(r) == 1 and nun(r[0].value) == "abs(self._total)", f"{[nun(x.value) for x in r]}", m.rel)
